@@ -163,7 +163,7 @@ pub mod inv {
         for r in &snap {
             let shard = store.verif_clock_shard(&r.key);
             let clock = store.verif_clock_value(shard);
-            if clock < r.timestamp {
+            if clock < r.timestamp && r.timestamp != u64::MAX {   // (a key pinned at the maximum is the one exception the property names)
                 out.push(Finding { props: &["C12"], what: format!("key {} carries timestamp {} but its clock shard stands at {}", super::hex(&r.key), r.timestamp, clock) });
                 break;
             }
